@@ -30,14 +30,16 @@ VARIABLES
     inst,         \* [inst -> rule set installed on that instance]
     vers,         \* sequence of all rule sets ever denoted (vers[1] = initial)
     done,         \* number of versions whose update call has returned (index into vers)
-    pend,         \* update in progress: [kind, target, npub, ok] or [kind |-> "none"]
-    model         \* execution model set by SetExecModel
+    pend,         \* update holding the update lock: [kind, target, npub, id] or kind = "none"
+    model,        \* execution model set by SetExecModel
+    upq,          \* [update id -> [kind, rules, names]]  management calls made, not yet seen inside the lock
+    fin           \* [update id -> TRUE]  updates known to have completed whose return was not yet logged
 
-pvars == <<pmin, pmax, free, holder, transit, dc, rq, cur, cleared, inst, vers, done, pend, model>>
+pvars == <<pmin, pmax, free, holder, transit, dc, rq, cur, cleared, inst, vers, done, pend, model, upq, fin>>
 
 Insts == 0..(pmax - 1)
 Rng(s) == {s[i] : i \in DOMAIN s}
-NoPend == [kind |-> "none"]
+NoPend == [kind |-> "none", target |-> <<>>, npub |-> 0, id |-> 0]
 Restrict(f, S) == [x \in (DOMAIN f) \cap S |-> f[x]]
 AsTags(rules) == [x \in {rules[i].name : i \in DOMAIN rules} |->
                     rules[CHOOSE i \in DOMAIN rules : rules[i].name = x].tag]
@@ -54,7 +56,7 @@ PNewCore(mn, mx, rules, m) ==
   /\ cur' = AsTags(rules) /\ cleared' = FALSE
   /\ inst' = [i \in 0..(mx - 1) |-> AsTags(rules)]
   /\ vers' = <<AsTags(rules)>> /\ done' = 1 /\ pend' = NoPend
-  /\ model' = m
+  /\ model' = m /\ upq' = <<>> /\ fin' = <<>>
 
 \* a construction attempt: it succeeds exactly for 0 < min < max, a model in 1..4 and a text that compiles
 PNewTryCore(mn, mx, m, textok, ok) ==
@@ -77,7 +79,7 @@ ArriveCore(q, keys, names, fail, failmay) ==
   /\ q \notin DOMAIN rq
   /\ rq' = (q :> [st |-> "arrived", inst |-> -1, keys |-> keys, names |-> names, fail |-> fail, failmay |-> failmay,
                   lo |-> done, ran |-> <<>>, wasCleared |-> cleared]) @@ rq
-  /\ UNCHANGED <<pmin, pmax, free, holder, transit, dc, cur, cleared, inst, vers, done, pend, model>>
+  /\ UNCHANGED <<pmin, pmax, free, holder, transit, dc, cur, cleared, inst, vers, done, pend, model, upq, fin>>
 
 \* instances of the same list (resident: below pmin, additional: the others) that are free
 SameList(i, F) == {j \in F : (j < pmin) = (i < pmin)}
@@ -92,7 +94,7 @@ PopCore(q, i, n) ==
   /\ holder' = [holder EXCEPT ![i] = q]
   /\ dc' = [dc EXCEPT ![i] = [k \in rq[q].keys |-> q] @@ @]
   /\ rq' = [rq EXCEPT ![q].st = "holding", ![q].inst = i]
-  /\ UNCHANGED <<pmin, pmax, transit, cur, cleared, inst, vers, done, pend, model>>
+  /\ UNCHANGED <<pmin, pmax, transit, cur, cleared, inst, vers, done, pend, model, upq, fin>>
 
 \* hook "spin": a request found nothing free and tries again (always allowed:
 \* the emptiness test may be stale)
@@ -117,7 +119,7 @@ RuleRunCore(q, r, t) ==
   /\ q \in DOMAIN rq /\ rq[q].st = "holding"
   /\ r \notin DOMAIN rq[q].ran
   /\ rq' = [rq EXCEPT ![q].ran = (r :> t) @@ @]
-  /\ UNCHANGED <<pmin, pmax, free, holder, transit, dc, cur, cleared, inst, vers, done, pend, model>>
+  /\ UNCHANGED <<pmin, pmax, free, holder, transit, dc, cur, cleared, inst, vers, done, pend, model, upq, fin>>
 
 Release(q, h, t, d) ==   \* helper: holder, transit, dc after q gave its instance back
   LET i == rq[q].inst IN
@@ -155,7 +157,7 @@ ReturnCore(q, err, vals, checkVersion) ==
              THEN LET z == Release(q, holder, transit, dc) IN
                   holder' = z.holder /\ transit' = z.transit /\ dc' = z.dc
              ELSE UNCHANGED <<holder, transit, dc>>
-  /\ UNCHANGED <<pmin, pmax, free, cur, cleared, inst, vers, done, pend, model>>
+  /\ UNCHANGED <<pmin, pmax, free, cur, cleared, inst, vers, done, pend, model, upq, fin>>
 
 \* hook "push": instance i is back in its list.  The push goroutine may log
 \* before the driver logs the return of the request, so a push of an instance
@@ -172,7 +174,7 @@ PushCore(i, n) ==
              /\ holder' = z.holder /\ dc' = z.dc
              /\ transit' = transit /\ free' = free \cup {i}
              /\ rq' = [rq EXCEPT ![q].st = "pushed"]
-  /\ UNCHANGED <<pmin, pmax, cur, cleared, inst, vers, done, pend, model>>
+  /\ UNCHANGED <<pmin, pmax, cur, cleared, inst, vers, done, pend, model, upq, fin>>
 
 \* driver event: the result map handed back to request q is compared with the copy taken at return
 FrozenCore(q, same) == same /\ UNCHANGED pvars
@@ -187,20 +189,21 @@ QuiesceCore ==
 -----------------------------------------------------------------------------
 (* Management *)
 
-Denote(kind, rules, names) ==
+DenoteOn(c, kind, rules, names) ==
   CASE kind = "full"   -> AsTags(rules)
-    [] kind = "incr"   -> AsTags(rules) @@ cur
-    [] kind = "remove" -> [x \in (DOMAIN cur) \ Rng(names) |-> cur[x]]
+    [] kind = "incr"   -> AsTags(rules) @@ c
+    [] kind = "remove" -> [x \in (DOMAIN c) \ Rng(names) |-> c[x]]
     [] kind = "clear"  -> <<>>
+Denote(kind, rules, names) == DenoteOn(cur, kind, rules, names)
 
 \* driver event upd_begin, logged before the call
 UpdBeginCore(kind, rules, names) ==
   /\ pend.kind = "none"
   /\ kind \in {"full", "incr", "remove", "clear", "badfull", "badincr"}
   /\ pend' = IF kind \in {"badfull", "badincr"}
-             THEN [kind |-> kind, target |-> cur, npub |-> 0]
-             ELSE [kind |-> kind, target |-> Denote(kind, rules, names), npub |-> 0]
-  /\ UNCHANGED <<pmin, pmax, free, holder, transit, dc, rq, cur, cleared, inst, vers, done, model>>
+             THEN [kind |-> kind, target |-> cur, npub |-> 0, id |-> 0]
+             ELSE [kind |-> kind, target |-> Denote(kind, rules, names), npub |-> 0, id |-> 0]
+  /\ UNCHANGED <<pmin, pmax, free, holder, transit, dc, rq, cur, cleared, inst, vers, done, model, upq, fin>>
 
 \* hook "publish": the next instance received the new rule set
 PublishCore ==
@@ -208,7 +211,7 @@ PublishCore ==
   /\ pend.npub < pmax
   /\ inst' = [inst EXCEPT ![pend.npub] = pend.target]
   /\ pend' = [pend EXCEPT !.npub = @ + 1]
-  /\ UNCHANGED <<pmin, pmax, free, holder, transit, dc, rq, cur, cleared, vers, done, model>>
+  /\ UNCHANGED <<pmin, pmax, free, holder, transit, dc, rq, cur, cleared, vers, done, model, upq, fin>>
 
 IncrMidCore == pend.kind = "incr" /\ UNCHANGED pvars
 
@@ -231,12 +234,89 @@ UpdEndCore(ok) ==
             /\ cleared' = (pend.kind = "clear")
             /\ vers' = Append(vers, pend.target) /\ done' = done + 1
   /\ pend' = NoPend
+  /\ UNCHANGED <<pmin, pmax, free, holder, transit, dc, rq, inst, model, upq, fin>>
+
+-----------------------------------------------------------------------------
+(* Concurrent callers of the management operations.  The calls serialise   *)
+(* on the update lock.  The log has: upd_begin(u) written by the caller    *)
+(* before the call, the hook events publish / incr_mid written INSIDE the  *)
+(* lock and tagged with the update they belong to, and upd_end(u, ok)      *)
+(* written by the caller after the return.  An update whose hook events    *)
+(* appear while another update is inside the lock is legal only if that    *)
+(* other update has published everywhere (it has completed; its return is  *)
+(* logged later) - otherwise two updates were inside the critical section  *)
+(* at once.                                                                *)
+PubKinds == {"full", "incr", "remove", "clear"}
+BadKinds == {"badfull", "badincr"}
+Minus(f, u) == [x \in (DOMAIN f) \ {u} |-> f[x]]
+
+UpdCallCore(u, kind, rules, names) ==
+  /\ u \notin DOMAIN upq /\ u \notin DOMAIN fin /\ ~(pend.kind # "none" /\ pend.id = u)
+  /\ kind \in PubKinds \cup BadKinds
+  /\ upq' = (u :> [kind |-> kind, rules |-> rules, names |-> names]) @@ upq
+  /\ UNCHANGED <<pmin, pmax, free, holder, transit, dc, rq, cur, cleared, inst, vers, done, pend, model, fin>>
+
+\* what the completion of update p means for the denoted rule set: [legal, cur, cleared, vers, done]
+EndState(p, ok) ==
+  LET same == [cur |-> cur, cleared |-> cleared, vers |-> vers, done |-> done] IN
+  CASE p.kind \in BadKinds -> [legal |-> ~ok /\ p.npub = 0] @@ same
+    [] p.kind = "remove" /\ cleared -> [legal |-> TRUE] @@ same
+    [] p.kind = "remove" /\ ~ok -> [legal |-> p.target = cur /\ p.npub = 0] @@ same
+    [] OTHER -> [legal |-> ok /\ p.npub = pmax, cur |-> p.target, cleared |-> (p.kind = "clear"),
+                 vers |-> Append(vers, p.target), done |-> done + 1]
+
+StartRec(u, c) ==
+  LET w == upq[u] IN
+  [kind |-> w.kind, npub |-> 0, id |-> u,
+   target |-> IF w.kind \in BadKinds THEN c ELSE DenoteOn(c, w.kind, w.rules, w.names)]
+
+\* the state in which update u is inside the lock, given the log so far
+Inside(u) ==
+  LET here == [cur |-> cur, cleared |-> cleared, vers |-> vers, done |-> done] IN
+  IF pend.kind # "none" /\ pend.id = u
+  THEN [ok |-> TRUE, pend |-> pend, upq |-> upq, fin |-> fin] @@ here
+  ELSE IF u \notin DOMAIN upq
+  THEN [ok |-> FALSE, pend |-> pend, upq |-> upq, fin |-> fin] @@ here
+  ELSE IF pend.kind = "none"
+  THEN [ok |-> TRUE, pend |-> StartRec(u, cur), upq |-> Minus(upq, u), fin |-> fin] @@ here
+  ELSE LET e == EndState(pend, TRUE) IN     \* the lock was handed over: the update in progress has completed
+       [ok |-> e.legal, pend |-> StartRec(u, e.cur), upq |-> Minus(upq, u), fin |-> (pend.id :> TRUE) @@ fin,
+        cur |-> e.cur, cleared |-> e.cleared, vers |-> e.vers, done |-> e.done]
+
+PublishCoreU(u) ==
+  LET b == Inside(u) IN
+  /\ b.ok /\ b.pend.kind \in PubKinds /\ b.pend.npub < pmax
+  /\ inst' = [inst EXCEPT ![b.pend.npub] = b.pend.target]
+  /\ pend' = [b.pend EXCEPT !.npub = @ + 1]
+  /\ cur' = b.cur /\ cleared' = b.cleared /\ vers' = b.vers /\ done' = b.done /\ upq' = b.upq /\ fin' = b.fin
+  /\ UNCHANGED <<pmin, pmax, free, holder, transit, dc, rq, model>>
+
+IncrMidCoreU(u) ==
+  LET b == Inside(u) IN
+  /\ b.ok /\ b.pend.kind = "incr" /\ b.pend.npub = 0
+  /\ pend' = b.pend
+  /\ cur' = b.cur /\ cleared' = b.cleared /\ vers' = b.vers /\ done' = b.done /\ upq' = b.upq /\ fin' = b.fin
   /\ UNCHANGED <<pmin, pmax, free, holder, transit, dc, rq, inst, model>>
+
+UpdEndCoreU(u, ok) ==
+  IF pend.kind # "none" /\ pend.id = u
+  THEN LET e == EndState(pend, ok) IN
+       /\ e.legal
+       /\ cur' = e.cur /\ cleared' = e.cleared /\ vers' = e.vers /\ done' = e.done /\ pend' = NoPend
+       /\ UNCHANGED <<pmin, pmax, free, holder, transit, dc, rq, inst, model, upq, fin>>
+  ELSE IF u \in DOMAIN fin
+  THEN /\ ok = fin[u] /\ fin' = Minus(fin, u)
+       /\ UNCHANGED <<pmin, pmax, free, holder, transit, dc, rq, cur, cleared, inst, vers, done, pend, model, upq>>
+  ELSE \* never seen inside the lock: the call ended without reaching a hook - it changed nothing
+       /\ u \in DOMAIN upq
+       /\ LET e == EndState(StartRec(u, cur), ok) IN e.legal /\ e.done = done
+       /\ upq' = Minus(upq, u)
+       /\ UNCHANGED <<pmin, pmax, free, holder, transit, dc, rq, cur, cleared, inst, vers, done, pend, model, fin>>
 
 SetModelCore(m, ok) ==
   /\ ok = (m \in 1..4)
   /\ model' = IF ok THEN m ELSE model
-  /\ UNCHANGED <<pmin, pmax, free, holder, transit, dc, rq, cur, cleared, inst, vers, done, pend>>
+  /\ UNCHANGED <<pmin, pmax, free, holder, transit, dc, rq, cur, cleared, inst, vers, done, pend, upq, fin>>
 
 \* generated rules carry their body tag in the description ("tag-N") and a
 \* salience that is a fixed function of the tag
